@@ -420,7 +420,15 @@ mod k3 {
             wl.push_back(sigs[i].get_terminator());
             i += 1;
         }
-        ChannelInternal { queue: VecDeque::new(), recv_blocking, wait_list: wl, capacity: 0, recv_count: 1, send_count: 1 }
+        // built by the crate's own constructor (not a struct literal), so that a new field does not break the harness
+        let arc = ChannelInternal::<u8>::new(true, 0);
+        let mut c = match alloc::sync::Arc::try_unwrap(arc) {
+            Ok(m) => m.into_inner(),
+            Err(_) => unreachable!(),
+        };
+        c.recv_blocking = recv_blocking;
+        c.wait_list = wl;
+        c
     }
     fn sigs() -> [Signal<u8>; 3] {
         [Signal::new_sync(KanalPtr::default()), Signal::new_sync(KanalPtr::default()), Signal::new_sync(KanalPtr::default())]
